@@ -11,14 +11,16 @@
                      8 = 1 again
    holder alphabet : 1 everything   2 nothing   3 partial + KB(n1,a1)   4 other partial + KB(n2,a2)
                      5 FAILS: nonce without aud/key   6 FAILS: unknown claim   7 nested / array selection
-                     8 FAILS: object selector on a scalar claim *)
+                     8 FAILS: object selector on a scalar claim
+                     9 FAILS LATE: key binding with an unknown algorithm (after the selection was stored) *)
 EXTENDS Naturals, Sequences, TLC, Json
 CONSTANTS MaxLen, Kinds
 VARIABLES kind, calls, done
-Alphabet == 1..8
-Fails == [issuer |-> {5, 6, 7}, holder |-> {5, 6, 8}]
+Alphabet == 1..9
+AlphabetOf(k) == IF k = "issuer" THEN 1..8 ELSE 1..9
+Fails == [issuer |-> {5, 6, 7}, holder |-> {5, 6, 8, 9}]
 Init == kind \in Kinds /\ calls = <<>> /\ done = FALSE
-Extend == ~done /\ Len(calls) < MaxLen /\ \E c \in Alphabet : calls' = Append(calls, c) /\ UNCHANGED <<kind, done>>
+Extend == ~done /\ Len(calls) < MaxLen /\ \E c \in AlphabetOf(kind) : calls' = Append(calls, c) /\ UNCHANGED <<kind, done>>
 Finish == ~done /\ Len(calls) >= 1 /\ done' = TRUE /\ UNCHANGED <<kind, calls>>
 Next == Extend \/ Finish
 Spec == Init /\ [][Next]_<<kind, calls, done>>
